@@ -79,7 +79,7 @@ def check(ctx):
     drv = ctx.cxx("drv_ring", ["drv_ring.cpp"])
     drvc = ctx.cxx("drv_cyclic", ["drv_cyclic.cpp"])
     # 1. the specification itself: invariants over all reachable states
-    r = ctx.tlc("Ring", "RingMCthorough.cfg" if ctx.thorough else "RingMC.cfg", workers=16, timeout=1500)
+    r = ctx.tlc("Ring", "RingMCthorough.cfg" if ctx.thorough else "RingMC.cfg", workers=16, timeout=2400, coverage=not ctx.thorough)
     if not r.ok:
         ctx.model_violation(r, "Ring invariants")
     if ctx.thorough:   # size 8 (the next power of two) with two byte values; sizes 2..7 above with three
